@@ -1,3 +1,14 @@
+
+/// `println!` that survives a closed stdout (a consumer such as `head` going away must not turn a verdict into a
+/// panic exit status)
+#[macro_export]
+macro_rules! outln {
+    ($($arg:tt)*) => {{
+        use std::io::Write;
+        let _ = writeln!(std::io::stdout(), $($arg)*);
+    }};
+}
+
 pub mod bytes;
 pub mod chain;
 pub mod deploy;
